@@ -18,7 +18,9 @@ PROP = {
             "thorough": {"gen": [(2500, 5)], "enum": [(1,)]},
             "timeout": 1500,
         }],
-        "rule": "every script drives the real websocket.Stream (client role) through 1..4 handshakes against a raw scripted TCP server "
+        # wss:// endpoints whose TLS dial fails; a first frame that arrives later than the dial timeout after connecting
+    "direct": [{"component": "wshandshake", "timeout": 300}],
+    "rule": "every script drives the real websocket.Stream (client role) through 1..4 handshakes against a raw scripted TCP server "
                 "in the same process (127.0.0.1:0): the server checks the request (GET, Host, Upgrade: websocket, Connection: upgrade, "
                 "Sec-WebSocket-Version: 13, base64 key of 16 bytes never seen before, the caller's extra headers spelled as given) and "
                 "answers with a generated response head: conforming (header order, name/value letter case, optional whitespace, junk "
